@@ -274,7 +274,7 @@ impl Prop for C05 {
         for car in [Car::EAMBIENTE, Car::TERMOSOLAR] {
             if let Some(bc) = ep.balance_cr.get(&car.to_lib()) {
                 let s: f64 = bc.used.epus_an as f64 + bc.used.nepus_an as f64 + bc.used.cgnus_an as f64 + bc.prod.an as f64;
-                let t = tol(s, n);
+                let t = tol(s, n + b.lines.len().saturating_sub(64));
                 for i in 0..n {
                     ensure!((bc.del.grid_t[i] as f64).abs() <= t, "no_grid_delivery", "{} step {}: {} kWh delivered by the grid although use is completed by production", car.name(), i, bc.del.grid_t[i]);
                     let surplus = bc.prod.t[i] as f64 - bc.used.epus_t[i] as f64;
